@@ -488,6 +488,26 @@ func runC03(c *Ctx) error {
 		"import \"strings\"\nprintln(strings.Repeat(\"ab\", 0), strings.Split(\"\", \"\"), strings.Split(\"abc\", \"\"), strings.Replace(\"aaa\", \"\", \"x\", -1), strings.ReplaceAll(\"aaa\", \"\", \"y\"), strings.Join(strings.Split(\"a,b\", \",\"), \"\"), strings.TrimRight(\"\", \"\"))\n",
 		"s := []int{3, 1, 2}\nt := s[1:1]\nfor i := 0; i < 5; i++ {\nt = append(t, i)\n}\nn := copy(s, s[1:])\nprintln(n, s, t)\n",
 	)
+	// long but flat: tens of thousands of statements with prefix operators, nested-type spellings and parentheses, none
+	// nested deeper than three - the nesting bound counts depth, not length
+	{
+		var sb strings.Builder
+		sb.WriteString("x := 1\ny := 2\nvar s [][]int\n")
+		for i := 0; i < 12000; i++ {
+			switch i % 4 {
+			case 0:
+				sb.WriteString("x = -(-y) + ^x\n")
+			case 1:
+				sb.WriteString("var t [][]map[string][]int\n_ = t\n")
+			case 2:
+				sb.WriteString("y = ((x)) - -1\n")
+			default:
+				sb.WriteString("s = append(s, []int{-1, +2 - 2})\n")
+			}
+		}
+		sb.WriteString("println(len(s))\n")
+		term = append(term, strings.ReplaceAll(sb.String(), "+2 - 2", "2 - 2"))
+	}
 	for _, src := range term {
 		k := c03Case{Kind: "eval", Src: src}
 		c.Pending(map[string]any{"kind": "eval", "src": src, "note": "a terminating program"})
